@@ -14,6 +14,9 @@ RULE = ("linear constraints with integer coefficients/constants/bounds in +-12 o
         "distinct by canonical JSON of the case")
 TRUSTED = ["coefficients of every equality expansion (native BQM, DQM, python fallback), the slack construction rules and the 'unbalanced' terms are GENERATED "
            "from cybqm_template.pyx.pxi / cydiscrete_quadratic_model.pyx / binary_quadratic_model.py by translators/penalty_formulas.py (Gen/Gen_Penalty.v, fail-closed)",
+           "the PYTHON side of DQM.add_linear_inequality_constraint (bound tightening, always-feasible test, refusal, equality shortcut, cross_zero test, "
+           "the cases of every log2 / log10 / linear slack variable) is GENERATED from discrete_quadratic_model.py by translators/dqm_inequality.py "
+           "(Gen/Gen_DqmIneq.v, fail-closed template match), evaluated by the check (dqm_ineq_generated_ok) and proved equal to the hand-written plan (C16_dqm_generated_plan_is_plan)",
            "model: coq/theories/Model/Penalty.v, CqmBqm.v, DqmAdj.v, Comb.v, Poly.v, ChkC16.v (hand written, tied by this correspondence)",
            "BQM and DQM kinds: all assignments x all slack assignments are enumerated INSIDE Coq on the coefficients the implementation reports",
            "cqm kind: the worker enumerates all BQM samples with bqm.energies (exact on the dyadic data) and the Python inverter, and feeds "
